@@ -340,3 +340,200 @@ pub fn playout_seeds(playouts: u32, max_plies: u32, every: u32) -> Vec<(String, 
     }
     out
 }
+
+/// Terminal family: mated and stalemated positions in which the side to move has only its king
+/// and ONE pawn standing next to the king (free, blocked or pinned), against king + a line piece
+/// on a queen-line through the mover's king + one further piece within three squares of that king.  Enumerated completely for the
+/// mover's king on the given squares; only the terminal members are returned.
+pub fn terminal_family(king_squares: &[Sq]) -> Vec<Pos> {
+    use rayon::prelude::*;
+    let jobs: Vec<(Side, Sq)> = [Side::White, Side::Black].iter().flat_map(|s| king_squares.iter().map(move |k| (*s, *k))).collect();
+    let res: Vec<Vec<Pos>> = jobs
+        .par_iter()
+        .map(|(us, ks)| {
+            let them = us.other();
+            let mut out = Vec::new();
+            let (kf, kr) = (file_of(*ks), rank_of(*ks));
+            for (df, dr) in [(1i8, 0i8), (1, 1), (0, 1), (-1, 1), (-1, 0), (-1, -1), (0, -1), (1, -1)] {
+                let ps = match mk_sq(kf + df, kr + dr) {
+                    Some(p) if rank_of(p) != 0 && rank_of(p) != 7 => p,
+                    _ => continue,
+                };
+                // line piece beyond the pawn on the same line (pin geometry) or anywhere on a queen-line through the king
+                let mut line_sqs: Vec<Sq> = Vec::new();
+                for (lf, lr) in [(1i8, 0i8), (1, 1), (0, 1), (-1, 1), (-1, 0), (-1, -1), (0, -1), (1, -1)] {
+                    let (mut f, mut r) = (kf + lf, kr + lr);
+                    while let Some(t) = mk_sq(f, r) {
+                        if t != ps {
+                            line_sqs.push(t);
+                        }
+                        f += lf;
+                        r += lr;
+                    }
+                }
+                for ek in 0..64u8 {
+                    if ek == *ks || ek == ps || ((file_of(ek) - kf).abs() <= 1 && (rank_of(ek) - kr).abs() <= 1) {
+                        continue;
+                    }
+                    for &ls in &line_sqs {
+                        if ls == ek {
+                            continue;
+                        }
+                        for lk in [Kind::Queen, Kind::Rook, Kind::Bishop] {
+                            let mut base = Pos::empty();
+                            base.stm = *us;
+                            base.sq[*ks as usize] = Some((Kind::King, *us));
+                            base.sq[ps as usize] = Some((Kind::Pawn, *us));
+                            base.sq[ek as usize] = Some((Kind::King, them));
+                            base.sq[ls as usize] = Some((lk, them));
+                            for xs in 0..64u8 {
+                                if base.sq[xs as usize].is_some() || (file_of(xs) - kf).abs() > 3 || (rank_of(xs) - kr).abs() > 3 {
+                                    continue;
+                                }
+                                for xk in [Kind::Queen, Kind::Rook, Kind::Bishop, Kind::Knight] {
+                                    let mut p = base.clone();
+                                    p.sq[xs as usize] = Some((xk, them));
+                                    if p.has_legal_move() {
+                                        continue;
+                                    }
+                                    if p.is_consistent() {
+                                        out.push(p);
+                                    }
+                                }
+                            }
+                        }
+                    }
+                }
+            }
+            out
+        })
+        .collect();
+    res.into_iter().flatten().collect()
+}
+
+/// Sparse-position family for the search properties: `n` consistent positions with 6..9 men
+/// produced by a fixed linear-congruential sequence (no run-time randomness: the family is the
+/// same on every run), side to move not in check, 4..26 legal moves.
+pub fn sparse_positions(n: usize) -> Vec<Pos> {
+    let mut out = Vec::new();
+    let mut x: u64 = 0x2545F4914F6CDD1D;
+    let mut next = move || {
+        x = x.wrapping_mul(6364136223846793005).wrapping_add(1442695040888963407);
+        (x >> 33) as u32
+    };
+    let kinds = [Kind::Queen, Kind::Rook, Kind::Rook, Kind::Bishop, Kind::Bishop, Kind::Knight, Kind::Knight, Kind::Pawn, Kind::Pawn, Kind::Pawn, Kind::Pawn];
+    let mut guard = 0;
+    while out.len() < n && guard < 200_000 {
+        guard += 1;
+        let men = 6 + (next() % 4) as usize;
+        let mut p = Pos::empty();
+        let wk = (next() % 64) as u8;
+        let bk = (next() % 64) as u8;
+        if wk == bk || ((file_of(wk) - file_of(bk)).abs() <= 1 && (rank_of(wk) - rank_of(bk)).abs() <= 1) {
+            continue;
+        }
+        p.sq[wk as usize] = Some((Kind::King, Side::White));
+        p.sq[bk as usize] = Some((Kind::King, Side::Black));
+        let mut ok = true;
+        for i in 0..(men - 2) {
+            let k = kinds[(next() as usize) % kinds.len()];
+            let s = (next() % 64) as u8;
+            let side = if (i + (next() as usize)) % 2 == 0 { Side::White } else { Side::Black };
+            if p.sq[s as usize].is_some() || (k == Kind::Pawn && (rank_of(s) == 0 || rank_of(s) == 7)) {
+                ok = false;
+                break;
+            }
+            p.sq[s as usize] = Some((k, side));
+        }
+        if !ok {
+            continue;
+        }
+        p.stm = if next() % 2 == 0 { Side::White } else { Side::Black };
+        if !p.is_consistent() || p.in_check(p.stm) {
+            continue;
+        }
+        let l = p.legal_moves().len();
+        if !(4..=26).contains(&l) {
+            continue;
+        }
+        out.push(p);
+    }
+    out
+}
+
+/// En-passant discovery family: the capture removes a pawn that stood between one of the
+/// capturer's own line pieces and the ENEMY king (discovered check or mate through the captured
+/// pawn's square, the capturing pawn's origin or its destination).  For every file of the
+/// double-stepped pawn, capturers on the left / right / both, the enemy king on every square of
+/// every queen-line through the victim's square, and an own bishop / rook / queen on every square
+/// of the opposite ray.  Own king on the first consistent square of a fixed list.
+pub fn ep_discovery() -> Vec<Pos> {
+    let mut out = Vec::new();
+    for stm in [Side::White, Side::Black] {
+        let them = stm.other();
+        let (cap_rank, ep_rank, start_rank) = if stm == Side::White { (4i8, 5i8, 6i8) } else { (3i8, 2i8, 1i8) };
+        for vf in 0..8i8 {
+            for caps in 1..4u8 {
+                let (lf, rf) = (vf - 1, vf + 1);
+                if (caps & 1 != 0 && lf < 0) || (caps & 2 != 0 && rf > 7) {
+                    continue;
+                }
+                let mut base = Pos::empty();
+                base.stm = stm;
+                let victim = mk_sq(vf, cap_rank).unwrap();
+                base.sq[victim as usize] = Some((Kind::Pawn, them));
+                base.ep = mk_sq(vf, ep_rank);
+                let behind = mk_sq(vf, start_rank).unwrap();
+                if caps & 1 != 0 {
+                    base.sq[mk_sq(lf, cap_rank).unwrap() as usize] = Some((Kind::Pawn, stm));
+                }
+                if caps & 2 != 0 {
+                    base.sq[mk_sq(rf, cap_rank).unwrap() as usize] = Some((Kind::Pawn, stm));
+                }
+                for (df, dr) in [(1i8, 0i8), (1, 1), (0, 1), (-1, 1), (-1, 0), (-1, -1), (0, -1), (1, -1)] {
+                    // enemy king somewhere along (df, dr) from the victim, own slider along the opposite ray
+                    let mut ksqs = Vec::new();
+                    let (mut f, mut r) = (vf + df, cap_rank + dr);
+                    while let Some(t) = mk_sq(f, r) {
+                        ksqs.push(t);
+                        f += df;
+                        r += dr;
+                    }
+                    let mut ssqs = Vec::new();
+                    let (mut f, mut r) = (vf - df, cap_rank - dr);
+                    while let Some(t) = mk_sq(f, r) {
+                        ssqs.push(t);
+                        f -= df;
+                        r -= dr;
+                    }
+                    for &ek in &ksqs {
+                        for &ss in &ssqs {
+                            for sk in [Kind::Bishop, Kind::Rook, Kind::Queen] {
+                                let mut p = base.clone();
+                                if p.sq[ek as usize].is_some() || p.sq[ss as usize].is_some() || Some(ek) == p.ep || Some(ss) == p.ep || ek == behind || ss == behind {
+                                    continue;
+                                }
+                                p.sq[ek as usize] = Some((Kind::King, them));
+                                p.sq[ss as usize] = Some((sk, stm));
+                                let home = if stm == Side::White { 0i8 } else { 7i8 };
+                                for kf in [0i8, 7, 3, 4, 1, 6] {
+                                    let ks = mk_sq(kf, home).unwrap();
+                                    if p.sq[ks as usize].is_some() {
+                                        continue;
+                                    }
+                                    p.sq[ks as usize] = Some((Kind::King, stm));
+                                    if p.is_consistent() {
+                                        out.push(p.clone());
+                                        break;
+                                    }
+                                    p.sq[ks as usize] = None;
+                                }
+                            }
+                        }
+                    }
+                }
+            }
+        }
+    }
+    out
+}
